@@ -1076,9 +1076,9 @@ func substr(fn parser.Function, args []value.Primary, zeroBasedIndex bool) (valu
 		if sublen < 0 {
 			return value.NewNull(), nil
 		}
-		end = start + sublen
-		if strlen < end {
-			end = strlen
+		// start + sublen can overflow: compare with the number of characters that remain
+		if sublen < strlen-start {
+			end = start + sublen
 		}
 	}
 
